@@ -285,6 +285,12 @@ func (ac *authCase) script(rm *remote, class string, r *rng.R, out *sessionOut) 
 		out.played = true
 		rm.p.CloseWrite()
 		return
+	case "honest-coalesced":
+		// an honest peer whose ephemeral key and auth frame reach the node in one transport read (the node sends
+		// its own key without waiting for ours, so we can answer both at once): sent below in a single Write
+		if !readHonestEph() {
+			return
+		}
 	default:
 		if err := write(ser.MustEncodeToBytesWithType(&myEph)); err != nil {
 			fail("write eph", err)
@@ -305,7 +311,7 @@ func (ac *authCase) script(rm *remote, class string, r *rng.R, out *sessionOut) 
 	}
 	other := func(a []byte) []byte { s := sha256.Sum256(a); return s[:] }
 	switch class {
-	case "honest":
+	case "honest", "honest-coalesced":
 		payload = enc(me.PubKey(), mustSign(me, challenge))
 	case "sig-bitflip":
 		good := enc(me.PubKey(), mustSign(me, challenge))
@@ -433,7 +439,11 @@ func (ac *authCase) script(rm *remote, class string, r *rng.R, out *sessionOut) 
 	} else {
 		out.Sent = fmt.Sprintf("frame=%x", rawFrame)
 	}
-	if err := write(rawFrame); err != nil {
+	toWrite := rawFrame
+	if class == "honest-coalesced" {
+		toWrite = append(ser.MustEncodeToBytesWithType(&myEph), rawFrame...)
+	}
+	if err := write(toWrite); err != nil {
 		fail("write auth frame", err)
 		return
 	}
@@ -442,7 +452,7 @@ func (ac *authCase) script(rm *remote, class string, r *rng.R, out *sessionOut) 
 	// truncated message from blocking it forever (its own writes still succeed)
 	rm.p.CloseWrite()
 
-	if class == "honest" {
+	if class == "honest" || class == "honest-coalesced" {
 		// the honest node must prove possession of ITS key over the same challenge
 		_, chunk, err := rm.readFrame()
 		if err != nil {
@@ -512,6 +522,9 @@ func runAuth(c *core.Ctx, procs int) {
 	if r.Bool() {
 		plan = append(plan, "honest")
 	}
+	if r.Bool() {
+		plan = append(plan, "honest-coalesced")
+	}
 	honestOK := false
 	var outcomes []string
 	for i, class := range plan {
@@ -527,10 +540,16 @@ func runAuth(c *core.Ctx, procs int) {
 			w["reported_remote_pubkey"] = fmt.Sprintf("%v", res.sc.RemotePubKey())
 		}
 		outcomes = append(outcomes, fmt.Sprintf("%s:%v", class, accepted))
-		if class == "honest" {
+		if class == "honest" || class == "honest-coalesced" {
+			if class == "honest-coalesced" {
+				c.Count("hs_honest_coalesced_sessions", 1)
+			}
 			switch {
 			case res.panic != nil:
 				c.Violation("handshake/honest-run-panic", fmt.Sprintf("MakeSecretConnection panicked in an honest session: %v", res.panic), w)
+				return
+			case !accepted && class == "honest-coalesced":
+				c.Violation("handshake/honest-peer-rejected/eph-key-and-auth-frame-in-one-read", fmt.Sprintf("remote proved possession of its key; its ephemeral key and its auth frame arrived in one transport read and the honest side returned %v (script: %s)", res.err, out.ScriptErr), w)
 				return
 			case !accepted:
 				c.Violation("handshake/honest-peer-rejected", fmt.Sprintf("remote proved possession of its key over sha256(lo||hi) but the honest side returned %v (script: %s)", res.err, out.ScriptErr), w)
